@@ -14,11 +14,17 @@ import time
 _FN = None
 
 
+def new_item():
+    from .structure import new_item as _n
+    _n()
+
+
 def _run_chunk(cases):
     evals = nontriv = 0
     viols = {}
     outcomes = collections.Counter()
     for case in cases:
+        new_item()
         r = _FN(case)
         evals += r[0]
         nontriv += r[1]
